@@ -29,11 +29,22 @@
   their own (torn writes; `crashAfterAnswer`, all launch modes).  Section 11: two `JobGroup` objects of one name —
   the re-open discipline under which they are one object (proved), the last-writer law of `add` (proved), and
   witnesses for what is lost without the discipline; for undisciplined histories nothing else is proved.
+  Added after that (proofs only, the executable model unchanged): section 9b — a model of the text `json.dumps`
+  writes and the proof that every dictionary's text is accepted and ends in a non-blank character, which removes the
+  per-text hypothesis of the torn-write theorems; section 10b — the crash after the server's answer as a step of an
+  extended machine, whose histories go on after it and keep the invariant (the identifier statement only `_partial`:
+  see there); section 11 — more last-writer laws (every launch mode, `progress` / `list_*` / `track_progress`).  STILL NOT PROVED:
+  that the real `json.dumps` writes what `JV.dumps` writes (a transcription, not a theorem about CPython); that the
+  ghost list `retired` of an extended history holds nothing but rerun-replaced, deleted and crash-lost identifiers;
+  a last-writer law for operations that raise or are cut, and for `get_results`, by a stale object.
 -/
 import PercevalModel.Lemmas.C19
 import PercevalModel.Lemmas.C19TW
+import PercevalModel.Lemmas.C19Dumps
 import PercevalModel.Model.C19Crash
+import PercevalModel.Lemmas.C19CrashM
 import PercevalModel.Lemmas.C19Conc
+import PercevalModel.Lemmas.C19ConcMore
 
 namespace PM.C19
 open PM.SM
@@ -743,6 +754,111 @@ theorem accepted_id_lost_when_crash_follows_sequential_answer :
     diskIds s = [0] ∧ (s.mem.map (·.st)) = [.success, .waiting] ∧
     (crashAfterAnswer s 0).issued = [1, 0] ∧ diskIds (crashAfterAnswer s 0) = [0] := by decide
 
+/-! ## 10b. the same crash as a stopping point INSIDE a machine: histories that go on after it
+
+`Lemmas/C19CrashM.lean`: the extended machine `xstep` runs histories of `XOp` = an operation of the machine above
+(`.op o`) or a crash step (`.crash g`: the process that stopped at a `create_job` / `rerun_job` request had in fact
+been answered `accept g` and died before the write).  The crash step is `crashAfterAnswer` with the identifier in
+flight also entered in the ghost list `retired` — which in this machine reads "identifiers known not to be in the
+file: replaced by a rerun, deleted with the group, or in flight at a crash" — and in the ledger `lost` of the
+extended state.  After a crash step the history goes on with any operations (re-open, add, launch, rerun, …) and
+any further crashes.  The one invariant all theorems of sections 1–7 are read off is preserved by the crash step,
+hence by every extended history: the theorems are kept. -/
+
+/-- **crash_histories_keep_invariant.**  For ALL histories interleaving operations and crashes-after-answer (all
+answers, all stopping points, any number of crashes, anything after them) the invariant holds. -/
+theorem crash_histories_keep_invariant (dir : Bool) (xs : List XOp) (hw : ∀ o ∈ xs, WFX o) :
+    Inv (exec xstep (xinit dir) xs).st :=
+  xexec_inv dir xs hw
+
+/-- **crash_histories_disk_refines_memory.**  `disk_refines_memory` for histories with crashes: re-opening yields
+memory's observable content and the file is exactly the image of memory. -/
+theorem crash_histories_disk_refines_memory (dir : Bool) (xs : List XOp) (hw : ∀ o ∈ xs, WFX o) :
+    Refines fixed (exec xstep (xinit dir) xs).st ∧
+    (exec xstep (xinit dir) xs).st.disk = some ((exec xstep (xinit dir) xs).st.mem.map toDict) := by
+  have h := xexec_inv dir xs hw
+  refine ⟨?_, h.disk⟩
+  show (reload fixed _).map toDict = _
+  rw [reload_eq h]
+  exact reloadList_toDict h.good
+
+/-- **crash_histories_no_duplicate_ids.** -/
+theorem crash_histories_no_duplicate_ids (dir : Bool) (xs : List XOp) (hw : ∀ o ∈ xs, WFX o) :
+    (ids (exec xstep (xinit dir) xs).st.mem).Nodup ∧ (diskIds (exec xstep (xinit dir) xs).st).Nodup := by
+  have h := xexec_inv dir xs hw
+  exact ⟨h.nodup, by rw [diskIds_eq h]; exact h.nodup⟩
+
+/-- **crash_histories_request_stable.**  Every `create_job` request that left — before or after any crash — equals
+the body the file held for that entry; every job whose body the file holds has a body made of JSON values. -/
+theorem crash_histories_request_stable (dir : Bool) (xs : List XOp) (hw : ∀ o ∈ xs, WFX o) :
+    (∀ r ∈ (exec xstep (xinit dir) xs).st.sent, r.req = r.stored ∧ r.req.isSome = true) ∧
+    (∀ j ∈ (exec xstep (xinit dir) xs).st.mem, j.st ≠ .success → j.js = true) := by
+  have h := xexec_inv dir xs hw
+  exact ⟨h.sent, fun j hj hs => ((h.good j hj).2 hs).2⟩
+
+/- FULL statement wanted for the identifiers: along every extended history every identifier the server issued is in
+the file, unless the failed job it belonged to was replaced by its rerun, or the group was deleted, or it is in the
+ledger `lost` (in flight at a crash) — and the ledger has exactly one entry per crash.
+PROVED below (`…_partial`): every issued identifier is in the file unless it is in `retired`, where the crash step
+enters the identifier in flight in `retired` (by definition of `lose`, see `crash_step_spec`); the ledger has one
+entry per crash.  MISSING for the full statement: that the `retired` list of an extended history consists of
+nothing but the entries made by reruns / deletions and the ledger — i.e. that operations treat `retired` as a
+write-only ghost (a lemma per operation of the machine: each leaves `retired` alone or prepends to it); it is
+visible in the definitions but not proved. -/
+
+/-- **crash_histories_accepted_ids_partial.** -/
+theorem crash_histories_accepted_ids_partial (dir : Bool) (xs : List XOp) (hw : ∀ o ∈ xs, WFX o) :
+    (∀ k ∈ (exec xstep (xinit dir) xs).st.issued,
+      k ∉ (exec xstep (xinit dir) xs).st.retired → k ∈ diskIds (exec xstep (xinit dir) xs).st) ∧
+    (exec xstep (xinit dir) xs).lost.length = (xs.filter isCrash).length := by
+  have h := xexec_inv dir xs hw
+  refine ⟨?_, by simpa [xinit] using xexec_lost_length xs (xinit dir)⟩
+  intro k hk hr
+  rw [diskIds_eq h]
+  rcases h.surv k hk with h1 | h1
+  · exact absurd h1 hr
+  · exact h1
+
+/-- **crash_step_spec.**  What the crash step does in a reachable state: it is `crashAfterAnswer` (the function of
+section 10) plus the book-keeping — the identifier in flight goes to `retired` and to the ledger; the file is
+untouched, and that identifier is not in it. -/
+theorem crash_step_spec (dir : Bool) (xs : List XOp) (hw : ∀ o ∈ xs, WFX o) (g : Nat) :
+    let x := exec xstep (xinit dir) xs
+    let y := (xstep x (.crash g)).1
+    y.st = { crashAfterAnswer x.st g with retired := (x.st.next + g) :: x.st.retired } ∧
+    y.lost = (x.st.next + g) :: x.lost ∧ y.st.disk = x.st.disk ∧ (x.st.next + g) ∉ diskIds y.st ∧
+    (xstep x (.crash g)).2.res = .killed := by
+  intro x y
+  have h : Inv x.st := xexec_inv dir xs hw
+  have e : y.st = { crashAfterAnswer x.st g with retired := (x.st.next + g) :: x.st.retired } := lose_eq h g
+  have hd : y.st.disk = x.st.disk := by rw [e]; simp [crashAfterAnswer, construct, h.disk]
+  refine ⟨e, rfl, hd, ?_, rfl⟩
+  have : diskIds y.st = ids x.st.mem := by rw [← diskIds_eq h]; simp [diskIds, hd]
+  rw [this]
+  intro hm
+  have := h.lt _ hm
+  omega
+
+/-- **crash_free_histories_agree.**  On histories without crash steps the extended machine is the machine of
+sections 1–7 (so nothing above is about a different machine). -/
+theorem crash_free_histories_agree (dir : Bool) (ops : List Op) :
+    exec xstep (xinit dir) (ops.map .op) = ⟨exec (step fixed) (create fixed dir) ops, []⟩ :=
+  xexec_ops ops (xinit dir)
+
+/-- non-vacuity, and a history that goes on after the crash: two jobs; the launch is cut at its second request
+(identifier 0 saved); in fact the server had answered `accept 2` (identifier 3) before the process died; the group
+is re-opened, the second job — still unsent in the file — is launched again and gets identifier 4: the file holds
+0 and 4, identifier 3 is issued, retired and in the ledger, and a third launch has nothing left to send -/
+example :
+    let xs : List XOp := [.op (.add plainJob none), .op (.add plainJob none), .op (launchPar [.accept 0]),
+      .crash 2, .op .reopen, .op (launchPar [.accept 0]), .op (launchPar [])]
+    (∀ o ∈ xs, WFX o) ∧
+    let x := exec xstep (xinit true) xs
+    x.st.issued = [4, 3, 0] ∧ diskIds x.st = [0, 4] ∧ x.st.retired = [3] ∧ x.lost = [3] ∧
+    (run xstep (xinit true) xs).2.map (·.res) = [.ok, .ok, .killed, .killed, .ok, .ok, .ok] := by
+  refine ⟨by simp [WFX, WFOp, WFJob, plainJob, launchPar], ?_⟩
+  decide
+
 /-! ## 9. torn writes: a crash (or an I/O error) *inside* one `PersistentData.write_file` call
 
 `_write_to_file` replaces the group file in place: `open(path, "wt")` truncates it, then the JSON text is written.
@@ -819,6 +935,79 @@ theorem reopen_after_crash_fails_for_in_place_write :
   revert this
   decide
 
+/-! ### 9b. the per-text hypothesis discharged: a model of what `json.dumps` writes
+
+`Lemmas/C19Dumps.lean` describes the text `json.dumps(v)` (default arguments: `", "` / `": "`, `ensure_ascii`) as a
+function `JV.dumps` of the value tree `JV`: None / True / False / NaN / ±Infinity, number literals as `repr` writes
+them, strings of arbitrary code points (escapes, `\uXXXX`, surrogate pairs), lists, dictionaries with string keys,
+nested to any depth — a superset of what `JobGroup._to_json` builds (dates as text, identifiers and statuses as text
+or None, request bodies and metadata as nested dictionaries).  Proved by mutual structural induction on the value
+(the value lemma `JV.scan_dumps`: under ANY stack, in either mode where a value may start, the text of a value
+leaves the scanner either in `closeValue` or inside a number that may end there): the hypotheses `accepts new` and
+`endsBlack new` of the three theorems above hold for the text of EVERY dictionary, so the torn-write statements
+hold for everything `json.dumps` can write, not only for the texts the scenarios happened to write. -/
+
+/-- **dumps_text_loadable.**  For every dictionary (any keys, any nesting, any values of the kinds above):
+`json.loads` accepts the text `json.dumps` writes for it — and returns a dictionary —, and that text ends in a
+non-blank character. -/
+theorem dumps_text_loadable (m : JM) :
+    accepts (JV.dumps (.obj m)) = true ∧ endsBlack (JV.dumps (.obj m)) = true :=
+  ⟨accepts_dumps_obj m, endsBlack_dumps_obj m⟩
+
+/-- **torn_write_outcomes_of_dumps.**  `torn_write_outcomes` without hypothesis on the text: for every dictionary
+written, every previous content and every stopping point. -/
+theorem torn_write_outcomes_of_dumps (old : Option Text) (m : JM) (c : Nat) :
+    reopen (fileAt .inPlace old (JV.dumps (.obj m)) c) =
+      if c = 0 then reopen old
+      else if c ≤ (JV.dumps (.obj m)).length then .raises else .loaded (JV.dumps (.obj m)) :=
+  torn_write_outcomes old _ (accepts_dumps_obj m) (endsBlack_dumps_obj m) c
+
+/-- **torn_write_never_misread_of_dumps.**  Whatever dictionary is written and wherever the write stops, re-opening
+yields the previous outcome, a refusal, or the group written — never a third group. -/
+theorem torn_write_never_misread_of_dumps (old : Option Text) (m : JM) (c : Nat) :
+    reopen (fileAt .inPlace old (JV.dumps (.obj m)) c) = reopen old ∨
+    reopen (fileAt .inPlace old (JV.dumps (.obj m)) c) = .raises ∨
+    reopen (fileAt .inPlace old (JV.dumps (.obj m)) c) = .loaded (JV.dumps (.obj m)) :=
+  torn_write_never_misread old _ (accepts_dumps_obj m) (endsBlack_dumps_obj m) c
+
+/-- **write_via_temp_atomic_of_dumps.** -/
+theorem write_via_temp_atomic_of_dumps (old : Option Text) (m : JM) (c : Nat) :
+    reopen (fileAt .viaTemp old (JV.dumps (.obj m)) c) = reopen old ∨
+    reopen (fileAt .viaTemp old (JV.dumps (.obj m)) c) = .loaded (JV.dumps (.obj m)) :=
+  write_via_temp_atomic old _ (accepts_dumps_obj m) c
+
+/-- the dictionary `JobGroup._to_json` builds: two dates (text) and the list of job dictionaries -/
+def groupJson (created modified : List Nat) (jobs : JL) : JM :=
+  .cons [99, 114, 101, 97, 116, 101, 100, 95, 100, 97, 116, 101] (.str created)          -- created_date
+    (.cons [109, 111, 100, 105, 102, 105, 101, 100, 95, 100, 97, 116, 101] (.str modified)   -- modified_date
+      (.cons [106, 111, 98, 95, 103, 114, 111, 117, 112, 95, 100, 97, 116, 97] (.arr jobs) .nil))  -- job_group_data
+
+/-- **group_file_write_outcomes.**  The statement for the group file itself: whatever the dates, however many jobs
+and whatever their dictionaries hold, a `_write_to_file` stopped before the `open` leaves the previous file, stopped
+anywhere from the `open` until its last character leaves a file `JobGroup(name)` refuses, and completed leaves the
+new group. -/
+theorem group_file_write_outcomes (old : Option Text) (created modified : List Nat) (jobs : JL) (c : Nat) :
+    let new := JV.dumps (.obj (groupJson created modified jobs))
+    reopen (fileAt .inPlace old new c) =
+      if c = 0 then reopen old else if c ≤ new.length then .raises else .loaded new :=
+  torn_write_outcomes_of_dumps old _ c
+
+/-- the serializer at work: the witness text of section 9, `{"a": [1, -2.5e3, "x\"}"], "b": {}}`, is `dumps` of its
+value tree; and a string with a line feed, U+00E9 and U+1F600 is written `"\n\u00e9\ud83d\ude00"` -/
+example :
+    JV.dumps (.obj (.cons [97] (.arr (.cons (.num ⟨false, .pos 0 [], none, none⟩)
+        (.cons (.num ⟨true, .pos 1 [], some ⟨5, []⟩, some (.none, ⟨3, []⟩)⟩)
+          (.cons (.str [120, 34, 125]) .nil)))) (.cons [98] (.obj .nil) .nil))) =
+      [123, 34, 97, 34, 58, 32, 91, 49, 44, 32, 45, 50, 46, 53, 101, 51, 44, 32, 34, 120, 92, 34, 125, 34,
+       93, 44, 32, 34, 98, 34, 58, 32, 123, 125, 125] ∧
+    JV.dumps (.str [10, 233, 128512]) =
+      [34, 92, 110, 92, 117, 48, 48, 101, 57, 92, 117, 100, 56, 51, 100, 92, 117, 100, 101, 48, 48, 34] := by
+  decide
+
+/-- an empty group: `{"created_date": "", "modified_date": "", "job_group_data": []}` -/
+example : (JV.dumps (.obj (groupJson [] [] .nil))).length = 63 ∧
+    accepts (JV.dumps (.obj (groupJson [] [] .nil))) = true := by decide
+
 end TW
 
 /-! ## 11. two `JobGroup` objects of one name alive at the same time
@@ -893,6 +1082,98 @@ theorem add_makes_file_the_adders_list (t : Two) (h : Bool) (j : Job) (kw : Opti
 
 /-- non-vacuity of the hypothesis: right after the first constructor the directory exists -/
 example (dir : Bool) : (init2 fixed dir).cur.dir = true := by cases dir <;> rfl
+
+/-- **launch_makes_file_the_launchers_list.**  The last-writer law for `run_parallel` / `run_sequential` (the launch
+that is not a rerun), proved like the one for `add` for ANY state of the two objects — no discipline, no
+reachability hypothesis beyond the existence of the `job_group` directory —, all answers of the server, all status
+scripts of the sequential wait: a launch by either object that returns normally either found nothing to send
+(every job of THAT object's list has an identifier already; its list and the file are untouched), or leaves the
+file equal to the image of THAT object's list — whatever the other object saved since the launcher loaded its list
+is gone.  (`actor t h` = the world as object `h` sees it when it starts to act: its own, possibly stale, list and
+the shared file.) -/
+theorem launch_makes_file_the_launchers_list (t : Two) (h : Bool) (rp seq : Bool) (outs : List Outcome)
+    (sts : List Ans) (hd : t.cur.dir = true) :
+    (step2 fixed t (h, .launch false rp seq outs sts)).2.res = .ok →
+      (step2 fixed t (h, .launch false rp seq outs sts)).1.cur.disk =
+        some ((step2 fixed t (h, .launch false rp seq outs sts)).1.cur.mem.map toDict) ∨
+      ((step2 fixed t (h, .launch false rp seq outs sts)).1.cur.mem = (actor t h).cur.mem ∧
+       (step2 fixed t (h, .launch false rp seq outs sts)).1.cur.disk = (actor t h).cur.disk ∧
+       ∀ j ∈ (actor t h).cur.mem, j.id.isSome = true) := by
+  obtain ⟨e1, e2⟩ := step2_actor t h (.launch false rp seq outs sts)
+  rw [e1, e2]
+  exact launch_ok_written _ rp seq outs sts (actor_dir t h hd)
+
+/-- non-vacuity (both alternatives occur), and what the law means: object B is constructed, A adds a job, B adds a
+job without re-opening (the file is B's list), A launches its job (accepted, identifier 0: the file is A's list,
+B's job is gone), B launches its job (identifier 1): the launch returns normally and the file is the image of B's
+list — the identifier 0 the server issued to A is gone; a second launch by B finds nothing to send and leaves list
+and file untouched -/
+example :
+    let hist : List Act := [(true, Op.reopen), (false, .add plainJob none), (true, .add plainJob none),
+      (false, launchPar [.accept 0]), (true, launchPar [.accept 0])]
+    let t := exec (step2 fixed) (init2 fixed true) hist
+    t.cur.dir = true ∧ t.cur.issued = [1, 0] ∧ diskIds t.cur = [1] ∧ t.cur.disk = some (t.cur.mem.map toDict) ∧
+    (run (step2 fixed) (init2 fixed true) hist).2.map (·.res) = [.ok, .ok, .ok, .ok, .ok] ∧
+    (step2 fixed t (true, launchPar [])).2.res = .ok ∧
+    (step2 fixed t (true, launchPar [])).1.cur.mem = (actor t true).cur.mem ∧
+    (∀ j ∈ (actor t true).cur.mem, j.id.isSome = true) := by decide
+
+/-- **any_launch_makes_file_the_launchers_list.**  The same law for EVERY launch mode — `run_parallel`,
+`run_sequential`, `rerun_failed_parallel`, `rerun_failed_sequential`, with or without replacement (the reruns start
+with a status refresh, which may itself write) —, any state of the two objects, all answers, all status scripts: a
+launch by either object that returns normally leaves the file equal to the image of THAT object's list, or has
+written nothing at all (the image of that object's list and the file are what they were when it started to act). -/
+theorem any_launch_makes_file_the_launchers_list (t : Two) (h : Bool) (rr rp seq : Bool) (outs : List Outcome)
+    (sts : List Ans) (hd : t.cur.dir = true) :
+    (step2 fixed t (h, .launch rr rp seq outs sts)).2.res = .ok →
+      (step2 fixed t (h, .launch rr rp seq outs sts)).1.cur.disk =
+        some ((step2 fixed t (h, .launch rr rp seq outs sts)).1.cur.mem.map toDict) ∨
+      ((step2 fixed t (h, .launch rr rp seq outs sts)).1.cur.mem.map toDict = (actor t h).cur.mem.map toDict ∧
+       (step2 fixed t (h, .launch rr rp seq outs sts)).1.cur.disk = (actor t h).cur.disk) := by
+  obtain ⟨e1, e2⟩ := step2_actor t h (.launch rr rp seq outs sts)
+  rw [e1, e2]
+  exact launch_any_ok_written _ rr rp seq outs sts (actor_dir t h hd)
+
+/-- non-vacuity for a rerun: B is constructed; A adds a job, launches it (identifier 0) and sees it fail; B adds a
+job without re-opening (the file is B's list); A reruns its failed job with replacement (identifier 1): the rerun
+returns normally and the file is the image of A's list — B's job is gone -/
+example :
+    let hist : List Act := [(true, Op.reopen), (false, .add plainJob none), (false, launchPar [.accept 0]),
+      (false, .progress [.st .error]), (true, .add plainJob none), (false, .launch true true false [.accept 0] [])]
+    let t := exec (step2 fixed) (init2 fixed true) hist
+    t.cur.dir = true ∧ diskIds t.cur = [1] ∧ t.cur.disk = some (t.cur.mem.map toDict) ∧ t.cur.mem.length = 1 ∧
+    (run (step2 fixed) (init2 fixed true) hist).2.map (·.res) = [.ok, .ok, .ok, .ok, .ok, .ok] := by decide
+
+/-- **status_view_by_either_object_writes_its_list_or_nothing.**  The last-writer law for the status views
+`progress()`, `list_*()` and `track_progress()`: for ANY state of the two objects, all status answers: a view by
+either object that returns normally leaves the file equal to the image of THAT object's list (it saw a status
+change and saved), or has written nothing (the image of that object's list and the file are untouched). -/
+theorem status_view_by_either_object_writes_its_list_or_nothing (t : Two) (h : Bool) (op : Op)
+    (hop : (∃ sts, op = .progress sts) ∨ (∃ k sts, op = .list k sts) ∨ (∃ sts, op = .track sts))
+    (hd : t.cur.dir = true) :
+    (step2 fixed t (h, op)).2.res = .ok →
+      (step2 fixed t (h, op)).1.cur.disk = some ((step2 fixed t (h, op)).1.cur.mem.map toDict) ∨
+      ((step2 fixed t (h, op)).1.cur.mem.map toDict = (actor t h).cur.mem.map toDict ∧
+       (step2 fixed t (h, op)).1.cur.disk = (actor t h).cur.disk) := by
+  obtain ⟨e1, e2⟩ := step2_actor t h op
+  rw [e1, e2]
+  exact views_ok_written _ op hop (actor_dir t h hd)
+
+/-- non-vacuity (both alternatives): B adds and launches a job (identifier 0); A, whose list is still empty, adds a
+job (the file is A's list: identifier 0 is gone from it); B's `progress()` sees WAITING become RUNNING and saves: the
+file is B's list again, A's job is gone; a `progress()` whose request is swallowed writes nothing -/
+example :
+    let hist : List Act := [(true, Op.reopen), (true, .add plainJob none), (true, launchPar [.accept 0]),
+      (false, .add plainJob none)]
+    let t := exec (step2 fixed) (init2 fixed true) hist
+    t.cur.dir = true ∧ diskIds t.cur = [] ∧
+    (step2 fixed t (true, .progress [.st .running])).2.res = .ok ∧
+    diskIds (step2 fixed t (true, .progress [.st .running])).1.cur = [0] ∧
+    (step2 fixed t (true, .progress [.st .running])).1.cur.disk =
+      some ((step2 fixed t (true, .progress [.st .running])).1.cur.mem.map toDict) ∧
+    (step2 fixed t (true, .progress [.ignored])).2.res = .ok ∧
+    (step2 fixed t (true, .progress [.ignored])).1.cur.disk = t.cur.disk ∧
+    diskIds (step2 fixed t (true, .progress [.ignored])).1.cur = [] := by decide
 
 /-- the positive statements fail without the discipline -/
 theorem handover_without_reopen_fails :
